@@ -199,6 +199,14 @@ fn legacy_check(out: &mut CaseResult, entries: &[(u8, u8, Uint128)], limits: &[O
     for (u, b, a) in entries {
         legacy.insert((user(*u % 4), 1 + *b as u64 % 12), a.u128());
     }
+    // half of the cases: one legacy row shares its (user, batch) slot with a claim already recorded in the new layout
+    // (legacy_run lets user0 unbond into batch 1 before the pause)
+    if let Some((_, _, a)) = entries.first() {
+        if a.u128() % 2 == 0 {
+            legacy.insert((user(0), 1), a.u128());
+            out.label("legacy_row_collides_with_new_layout_claim");
+        }
+    }
     let lims: Vec<Option<u32>> = limits.iter().map(|l| l.map(|x| x as u32)).collect();
     legacy_run(out, legacy, lims)
 }
@@ -225,6 +233,9 @@ fn legacy_run(out: &mut CaseResult, legacy: std::collections::BTreeMap<(String, 
         out.fail(v("migration-while-unpaused", "MigrateUnbondWaitList was accepted while the hub is not paused".into()));
         return;
     }
+    // a claim in the new layout: (user0, batch 1)
+    let v2_amount = if legacy.get(&(user(0), 1)) == Some(&1001) { 1002u128 } else { 1001u128 };
+    let _ = w.tx("user0", BSEI, &Cw20ExecuteMsg::Send { contract: HUB.into(), amount: Uint128::new(v2_amount), msg: to_json_binary(&basset::hub::Cw20HookMsg::Unbond {}).unwrap() }, &[]);
     w.tx(OWNER, HUB, &pause_msg(Some(true)), &[]).expect("pause");
     {
         let store = &mut w.contracts.get_mut(HUB).unwrap().1;
